@@ -722,6 +722,7 @@ pub fn run_scen(sc: &Scen, strat: &StratSpec, seed: u64, replay: Option<Vec<u32>
                     tc.iters.clear();
                 }
                 done.fetch_add(1, Ordering::SeqCst);
+                detsim::poke();
             };
             if t == sc_arc.ntasks - 1 {
                 body();
